@@ -363,3 +363,55 @@ fn w_failing_writer() {
     kani::cover!(r.is_err() && c == b'"');
     core::mem::forget(r);
 }
+
+/// C05 U-write-string-fast: the reserve/commit entry point every string, map key and
+/// `collect_str` fragment goes through, for every ASCII string of length <= 2 (the empty one
+/// included), quoted or not, compact or pretty formatter: the writer receives exactly the
+/// specified escaping of the string (between quotes iff asked), and the window handed to the
+/// escaper is at least the 6n+35 bytes it may touch. The escaper (format_string, decided by the
+/// U-format harnesses) is replaced by the specification escaper writing into the same window.
+fn format_string_spec(value: &str, dst: &mut [core::mem::MaybeUninit<u8>], need_quote: bool) -> usize {
+    let b = value.as_bytes();
+    assert!(dst.len() >= b.len() * 6 + 32 + 3, "reserved window smaller than the escaper may touch");
+    let mut tmp = [0u8; 16];
+    let n = crate::verif_refs::ref_escape(b, b.len(), need_quote, &mut tmp);
+    let mut i = 0;
+    while i < n {
+        dst[i] = core::mem::MaybeUninit::new(tmp[i]);
+        i += 1;
+    }
+    n
+}
+
+#[kani::proof]
+#[kani::unwind(16)]
+#[kani::stub(crate::util::string::format_string, format_string_spec)]
+fn u_write_string_fast_n2() {
+    use crate::format::{CompactFormatter, Formatter, PrettyFormatter};
+    let raw: [u8; 2] = kani::any();
+    kani::assume(raw[0] < 0x80 && raw[1] < 0x80);
+    let len: usize = kani::any();
+    kani::assume(len <= 2);
+    let s = unsafe { core::str::from_utf8_unchecked(&raw[..len]) };
+    let need_quote: bool = kani::any();
+    let pretty: bool = kani::any();
+    let mut out: Vec<u8> = Vec::with_capacity(64);
+    let r = if pretty {
+        PrettyFormatter::new().write_string_fast(&mut out, s, need_quote)
+    } else {
+        CompactFormatter.write_string_fast(&mut out, s, need_quote)
+    };
+    assert!(r.is_ok());
+    core::mem::forget(r);
+    let mut exp = [0u8; 16];
+    let n = crate::verif_refs::ref_escape(&raw, len, need_quote, &mut exp);
+    assert_eq!(out.len(), n);
+    kani::cover!(len == 0 && !need_quote);
+    kani::cover!(len == 0 && need_quote);
+    kani::cover!(n == 14);
+    let i: usize = kani::any();
+    if i < n {
+        assert_eq!(out[i], exp[i]);
+    }
+    core::mem::forget(out);
+}
